@@ -87,6 +87,7 @@ type Engine struct {
 	globalNonNil map[*ssa.Global]bool
 	globalConsts map[*ssa.Global]*constGlobal
 	callOrdinals map[ssa.Instruction]int
+	rootContract *FuncContract
 }
 
 func NewEngine() *Engine {
